@@ -33,9 +33,8 @@ impl Rng {
         z ^ (z >> 31)
     }
 
-    /// uniform in 0..n (n > 0)
+    /// uniform in 0..n; below(0) draws once and yields 0 (identical in every build profile)
     pub fn below(&mut self, n: u64) -> u64 {
-        debug_assert!(n > 0);
         // multiply-shift; bias is irrelevant here
         ((self.next() as u128 * n as u128) >> 64) as u64
     }
